@@ -73,17 +73,59 @@ fn in_range(r: &mut Report, rng: &mut Rng, surface: bool, st: &mut Stats) {
         }
         r.class("in-range:truth-on-the-cpr-lattice");
     }
-    let e = cpr::encode(lat, lon, odd as u32, surface);
-    if e.yz == 0 && e.xz == 0 {
-        r.class("in-range:cpr-counts-both-zero(zone corner)");
-    }
     let range_m = if surface { 45.0 } else { 180.0 } * geo::NM;
     let frac = match rng.below(4) {
         0 => rng.uni(0.90, 0.95),
         1 => rng.uni(0.0, 0.01),
         _ => rng.uni(0.0, 0.95),
     };
-    let (rlat, rlon) = geo::dest(lat, lon, rng.uni(0.0, 360.0), frac * range_m);
+    // one case in 16 starts from the *reference*: a receiver configured with "round" coordinates (exactly 0 or -0 in one
+    // or both coordinates, whole degrees, a zone corner, the antimeridian, a pole) and an aircraft somewhere in range of it
+    let special = rng.chance(1.0 / 16.0);
+    let (rlat, rlon) = if special {
+        let span = if surface { 90.0 } else { 360.0 };
+        let dl = span / (60.0 - odd as u32 as f64);
+        let mut pick = |rng: &mut Rng, lim: f64, lat_axis: bool| -> f64 {
+            match rng.below(8) {
+                0 => 0.0,
+                1 => -0.0,
+                2 => rng.range(-(lim as i64) + 1, lim as i64 - 1) as f64,
+                3 => {
+                    if lat_axis {
+                        rng.range(-(88.0 / dl) as i64, (88.0 / dl) as i64) as f64 * dl
+                    } else {
+                        geo::wrap180(rng.range(-59, 59) as f64 * span / rng.range(1, 59) as f64)
+                    }
+                }
+                4 => {
+                    if lat_axis {
+                        if rng.chance(0.5) { 90.0 } else { -90.0 }
+                    } else {
+                        -180.0
+                    }
+                }
+                5 => rng.range(-(lim as i64) * 2 + 1, lim as i64 * 2 - 1) as f64 / 2.0,
+                _ => rng.uni(-lim, lim),
+            }
+        };
+        let a = pick(rng, 90.0, true);
+        let b = pick(rng, 180.0, false);
+        let (tlat, tlon) = geo::dest(a, b, rng.uni(0.0, 360.0), frac * range_m);
+        lat = tlat;
+        lon = geo::wrap180(tlon);
+        r.class("in-range:special-reference(round coordinates)");
+        if a == 0.0 && b == 0.0 {
+            r.class("in-range:reference-exactly-on-the-origin");
+        }
+        (a, b)
+    } else {
+        (f64::NAN, f64::NAN)
+    };
+    let e = cpr::encode(lat, lon, odd as u32, surface);
+    if e.yz == 0 && e.xz == 0 {
+        r.class("in-range:cpr-counts-both-zero(zone corner)");
+    }
+    let (rlat, rlon) = if special { (rlat, rlon) } else { geo::dest(lat, lon, rng.uni(0.0, 360.0), frac * range_m) };
     // "closer than the unambiguous range" additionally means inside half a zone (x0.95) in each coordinate;
     // this only ever bites for surface reports poleward of ~89 deg and airborne ones poleward of ~87 deg
     let (dlat, dlon) = zones(surface, odd, e.rlat);
@@ -184,7 +226,7 @@ fn far_reference(r: &mut Report, rng: &mut Rng, surface: bool, st: &mut Stats) {
 }
 
 pub fn run(a: &Args, r: &mut Report) {
-    r.rule = "in range: true point -> independent encoder (one parity) -> real *_position_with_reference with the reference displaced by a random bearing and <= 0.95 x range (180 NM / 45 NM) -> within 10 m; any reference: arbitrary CPR counts with references incl. +-0, subnormal, 1e3..1e300, zone edges, poles, +-180 -> absent, or within half a zone of the reference and |lat| <= 90. distinct = distinct (cpr, reference) cases with a correct verdict One message in four carries position fields already filled in by an earlier decode against a reference on the other side of the globe: the result may depend on the CPR counts and the reference only.".into();
+    r.rule = "in range: true point -> independent encoder (one parity) -> real *_position_with_reference with the reference displaced by a random bearing and <= 0.95 x range (180 NM / 45 NM) -> within 10 m; any reference: arbitrary CPR counts with references incl. +-0, subnormal, 1e3..1e300, zone edges, poles, +-180 -> absent, or within half a zone of the reference and |lat| <= 90. distinct = distinct (cpr, reference) cases with a correct verdict One in-range case in 16 starts from a reference with round coordinates (exactly +-0 in one or both coordinates, whole and half degrees, zone corners, poles, -180) and places the aircraft in range of it. One message in four carries position fields already filled in by an earlier decode against a reference on the other side of the globe: the result may depend on the CPR counts and the reference only.".into();
     r.assumptions.push("in-range additionally requires the reference to be within 0.95 x half a zone in each coordinate (only active near the poles where a zone is narrower than the nominal range)".into());
     let mut st = Stats { tr: geo::transitions(), ..Default::default() };
     let mut rng = Rng::new(a.seed, a.shard, "C05");
@@ -224,6 +266,6 @@ pub fn run(a: &Args, r: &mut Report) {
     r.class_n("any-reference:none", st.far_none);
     r.class_n("any-reference:some-within-half-zone", st.far_some);
     r.max("error_m", st.max_err);
-    r.extra.insert("mandatory".into(), json!(["in-range-ok:airborne:even", "in-range-ok:airborne:odd", "in-range-ok:surface:even", "in-range-ok:surface:odd", "any-reference:some-within-half-zone", "in-range:cpr-counts-both-zero(zone corner)"]));
+    r.extra.insert("mandatory".into(), json!(["in-range-ok:airborne:even", "in-range-ok:airborne:odd", "in-range-ok:surface:even", "in-range-ok:surface:odd", "any-reference:some-within-half-zone", "in-range:cpr-counts-both-zero(zone corner)", "in-range:special-reference(round coordinates)", "in-range:reference-exactly-on-the-origin"]));
     r.sample(json!({"kind": "in-range", "truth": [48.1, 11.5], "reference_offset_nm": 171.0, "format": "airborne"}));
 }
